@@ -23,7 +23,8 @@ EXPLANATION = (
     "building and printing, negative literals get a minus sign, variable numbering is an enumeration (injective), the "
     "header counts variables and clauses of what is printed; (DP-TABLE) --form/--format/--compiler/--qasm-version "
     "choices and the branches/tables that implement them agree, each form maps to the sympy function of that form; "
-    "(MP-entrypoint) -e selects by name, its absence selects through find_last_qlassf, which returns the last "
+    "(MP-entrypoint) the presence test on the selected function does not depend on the function's value (no "
+    "__bool__/__len__ in QlassF's class hierarchy while `if qlassf:` is used); -e selects by name, its absence selects through find_last_qlassf, which returns the last "
     "definition; py2qasm compiles with the chosen compiler and exports with the chosen version in circuit mode.  It "
     "does NOT decide logical equivalence of sympy's normal forms nor the text format."
 )
